@@ -51,6 +51,13 @@ def configs(tier, seed):
             out.append(dict(b, check='quant', B=1, C=1))
             for view in ('step2', 'transposed', 'chanslice', 'flipbatch', 'chlast'):
                 out.append(dict(b, check='view', view=view, B=2, C=2))
+    for sc in [dict(kind='scat1', biort='near_sym_a', magbias=0.01, H=4, W=4, colour=False, B=1, C=2), dict(kind='scat1', biort='near_sym_a', magbias=0.01, H=4, W=4, colour=True, B=1, C=3),
+               dict(kind='scat1', biort='near_sym_b_bp', magbias=0.01, H=4, W=4, colour=True, B=1, C=3), dict(kind='scat2', biort='near_sym_a', qshift='qshift_a', magbias=0.01, H=8, W=8, colour=False, B=1, C=1),
+               dict(kind='scat2', biort='near_sym_a', qshift='qshift_a', magbias=0.01, H=8, W=8, colour=True, B=1, C=3)]:
+        for how in ('ctor32', 'ctor64', 'to_double', 'to_float'):
+            for xd in ('float32', 'float64'):
+                if (how in ('ctor32', 'to_float')) == (xd == 'float32'):
+                    out.append(dict(sc, check='dtype', how=how, xdtype=xd))
     out.append(dict(kind='scat1', check='quant_scat', biort='near_sym_a', magbias=0.01, H=4, W=4))
     out.append(dict(kind='scat1', check='quant_scat', biort='near_sym_b', magbias=0.01, H=4, W=4))
     out.append(dict(kind='scat2', check='quant_scat', biort='near_sym_a', qshift='qshift_a', magbias=0.01, H=8, W=8))
@@ -64,25 +71,43 @@ def _dt(tt, name):
     return getattr(tt, name)
 
 
+def _specs(cfg, B, C):
+    if cfg['kind'].startswith('scat'):
+        return [('x', (B, C, cfg['H'], cfg['W']))]
+    return C07._slice_specs(cfg, B, C)
+
+
+def _mk(pw, cfg):
+    if cfg['kind'].startswith('scat'):
+        kw = dict(biort=cfg['biort'], magbias=cfg['magbias'], combine_colour=bool(cfg.get('colour')))
+        if cfg['kind'] == 'scat2':
+            kw['qshift'] = cfg['qshift']
+            return pw.ScatLayerj2(**kw)
+        return pw.ScatLayer(**kw)
+    return C07._module(pw, cfg)
+
+
 def _build(pw, cfg, how):
     """module in the requested precision; returns (module, precision name)"""
     tt = C07._tt(pw)
     prev = tt.get_default_dtype()
     try:
         if how == 'ctor32':
-            tt.set_default_dtype(tt.float32); m = C07._module(pw, cfg); prec = 'float32'
+            tt.set_default_dtype(tt.float32); m = _mk(pw, cfg); prec = 'float32'
         elif how == 'ctor64':
-            tt.set_default_dtype(tt.float64); m = C07._module(pw, cfg); prec = 'float64'
+            tt.set_default_dtype(tt.float64); m = _mk(pw, cfg); prec = 'float64'
         elif how == 'to_double':
-            tt.set_default_dtype(tt.float32); m = C07._module(pw, cfg).double(); prec = 'float64'
+            tt.set_default_dtype(tt.float32); m = _mk(pw, cfg).double(); prec = 'float64'
         else:
-            tt.set_default_dtype(tt.float64); m = C07._module(pw, cfg).float(); prec = 'float32'
+            tt.set_default_dtype(tt.float64); m = _mk(pw, cfg).float(); prec = 'float32'
     finally:
         tt.set_default_dtype(prev)
     return m, prec
 
 
 def _apply(m, cfg, ts):
+    if cfg['kind'].startswith('scat'):
+        return [m(ts[0])]
     if cfg.get('none') and cfg['kind'] in ('dwt1i', 'dwt2i'):
         hs = [None if cfg['none'][j] else h for j, h in enumerate(ts[1:])]
         return [m((ts[0], hs))]
@@ -92,7 +117,7 @@ def _apply(m, cfg, ts):
 def _run_dtype(res, cfg):
     """symbolic vs real outcome + dtype tags; converted module == constructed module"""
     rt = symtorch.real_torch()
-    specs = C07._slice_specs(cfg, cfg['B'], cfg['C'])
+    specs = _specs(cfg, cfg['B'], cfg['C'])
     how, xd = cfg['how'], cfg['xdtype']
     twin = {'to_double': 'ctor64', 'to_float': 'ctor32'}.get(how)
     facts = dict(check='dtype', kind=cfg['kind'], how=how, xdtype=xd, none=bool(cfg.get('none')))
@@ -148,6 +173,8 @@ def _run_dtype(res, cfg):
     res.validated = dev
     if dev > (1e-9 if xd == 'float64' else 1e-4):
         res.status = 'error'; res.trace = 'symbolic values deviate from real torch by %g' % dev; return res
+    if twin and so2 is not None and cfg['kind'].startswith('scat'):
+        twin = None      # non-linear layer: the converted module is compared with real torch at the sample point only
     if twin and so2 is not None:
         if so2[0] != 'ok':
             res.status = 'violation'
